@@ -50,6 +50,11 @@ NARROW = [("uniform", ("int8", -100, 100)), ("uniform", ("int16", -20000, 30000)
 for mean in (-1.0, 0.0, 4.0):
     for scale in (0.1, 1.0, 5.0):
         GRID.append(("laplace", (mean, scale)))
+# minute and huge scales: the law is a location-scale family, nothing special happens at any magnitude above 0
+for mv in ((0.0, 1e-13), (1e-9, 1e-20), (0.0, 1e-300), (-1e-160, 1e-318), (0.0, 1e30), (1e12, 1e24)):
+    GRID.append(("normal", mv))
+for ms in ((0.0, 1e-13), (0.0, 1e-160), (-1e-30, 1e-30), (0.0, 1e150)):
+    GRID.append(("laplace", ms))
 GRID.append(("laplace", ()))
 GRID.append(("laplace", (0, 2)))
 GRID.append(("laplace", (0.0, 0.5)))
